@@ -50,6 +50,12 @@ def generate(rng, tier, shard, nshards):
                 yield gops.event("pnextseq", dict(base, ctx=c2, ext=ext, backend=backend), site=f"{backend}LM.p_next_seq", feat=feat)
             for s in ctxs[: 8 if tier == "quick" else 31]:
                 yield gops.event("lmcall", dict(base, s=s, backend=backend), site=f"{backend}LM.__call__", feat=feat)
+            for _ in range(3 if tier == "quick" else 8):
+                # the generation loop itself: LM.sample with a scripted draw (random walk in the support the code offers)
+                script = [rng.randrange(6) for _ in range(rng.randint(0, 5))]
+                bound = rng.choice([None, None, 0, 1, 2])
+                yield gops.event("sample", dict(base, script=script, bound=bound, backend=backend), site=f"{backend}LM.sample",
+                                 feat=feat + ("+max_tokens" if bound is not None else ""))
         for ctx in ctxs[:7]:
             yield gops.event("ntw", dict(base, ctx=ctx, backend="earley"), site="Earley.next_token_weights", feat=feat)
             yield gops.event("ntw", dict(base, ctx=ctx, backend="cky"), site="IncrementalCKY.p_next", feat=feat)
@@ -110,7 +116,7 @@ def long_context_events(rng, tier):
 
 
 def selftests(events, rng):
-    out = selftest_numeric(events, rng, ops=("lmcall", "pnextseq"), n=8)
+    out = selftest_numeric(events, rng, ops=("lmcall", "pnextseq", "sample"), n=12)
     cands = [e for e in events if "exc" not in e and e["op"] in ("pnext", "ntw", "pnextrl") and any(v != [0, 1] and v != 0 for _, v in e["dist"])]
     rng.shuffle(cands)
     for e in cands[:10]:
@@ -137,6 +143,57 @@ CHECK_DEADLOCK FALSE
 """
 
 
+GEN_CFG = """SPECIFICATION Spec
+CONSTANTS NTS = {"S", "A"}
+ TS = {"a", "b"}
+ MAXBODY = 2
+ MAXRULES = 2
+ WEIGHTS <- %s
+ BOUNDS <- %s
+INVARIANT Factorisation
+INVARIANT StaysViable
+INVARIANT CondSumsToOne
+INVARIANT LengthBound
+INVARIANT Emit
+PROPERTY Terminates
+CHECK_DEADLOCK FALSE
+"""
+
+
+def generation_model(report, tier):
+    """(A) Generation.tla: the sampling loop as a state machine over a TLC-enumerated family of exact-rational grammars
+    with finite language; (C) every complete behaviour TLC finds is replayed into the real LM objects with a scripted
+    draw, and the observed run is judged by the trace specification."""
+    import json
+    import re
+    from common import run_tlc, MachineryError
+    ws, bs = ("RatWeights2", "BoundSetQ") if tier == "quick" else ("RatWeights3", "BoundSet")
+    res = run_tlc("Generation", GEN_CFG % (ws, bs), timeout=3000, tag="generation")
+    if not res.ok or res.left != 0:
+        raise MachineryError("Generation.tla: design-level check failed (the model, not the code):\n" + res.errhead)
+    report.add_tlc(res, f"Generation.tla: all grammars with <= 2 rules over 2 nonterminals / 2 terminals, weights {ws}, "
+                        f"max_tokens in {bs}: Factorisation, StaysViable, CondSumsToOne, LengthBound, Terminates")
+    behs = []
+    for m in re.finditer(r'<<"BEH", "((?:[^"\\]|\\.)*)">>', res.out):
+        behs.append(json.loads(json.loads('"' + m.group(1) + '"')))
+    if len(behs) < 100:
+        raise MachineryError(f"Generation.tla printed only {len(behs)} behaviours")
+    report.extra["tlc_behaviours_replayed_into_LM.sample"] = len(behs)
+    out = []
+    backends = ("earley", "rescaled", "cky")
+    for i, b in enumerate(behs):
+        nm = {"S": "#0", "A": "#1"}          # the harness spells nonterminals #k
+        G = {"S": nm[b["G"]["S"]], "V": b["G"]["V"],
+             "rules": [{"w": r["w"], "h": nm[r["h"]], "b": [nm.get(y, y) for y in r["b"]]} for r in b["G"]["rules"]]}
+        forced = b["bound"] != -1 and len(b["ys"]) > b["bound"]
+        script = list(b["ys"]) + ([] if forced else [gops.EOS_NAME])
+        for be in (backends if tier != "quick" else (backends[i % 3],)):
+            out.append(gops.event("sample", {"sr": "Rat", "G": G, "script": script, "backend": be,
+                                             "bound": None if b["bound"] == -1 else b["bound"]},
+                                  site=f"{be}LM.sample[TLC behaviour]", feat="tlc-behaviour" + ("+forced-stop" if forced else "")))
+    return out
+
+
 def model_check(report, tier):
     """(A) CKY.tla: incremental columns = inside weights; the outside pass = weight of the one-token extension."""
     from common import run_tlc, MachineryError, semantic_core
@@ -152,12 +209,38 @@ def model_check(report, tier):
 
 def run(report, tier, seed):
     import random
-    model_check(report, tier)
-    standard_run(report, "C04", MODULE, tier, seed, selftests, extra_events=long_context_events(random.Random(seed + 4), tier),
+    import threading
+    box = {}
+
+    def bg():                      # Generation.tla is checked while the other models and the generators run
+        try:
+            box["events"] = generation_model(report, tier)
+        except BaseException as ex:   # noqa: BLE001 - re-raised in the main thread
+            box["error"] = ex
+
+    th = threading.Thread(target=bg)
+    th.start()
+
+    def lazy():
+        th.join()
+        if "error" in box:
+            raise box["error"]
+        yield from box["events"]
+
+    try:
+        model_check(report, tier)
+    except BaseException:
+        th.join()
+        raise
+    import itertools
+    extra = itertools.chain(long_context_events(random.Random(seed + 4), tier), lazy())
+    standard_run(report, "C04", MODULE, tier, seed, selftests, extra_events=extra,
                  rule=("exact-rational grammars with finitely many derivations (normalised or not, nullable parts, the empty "
                        "string), all contexts up to L (viable or not, and one containing eos), the three LM back-ends on warm "
                        "and cold objects: p_next (sums to one, proportional to prefix weights, eos gets Weight(ctx)), "
-                       "lm(x eos) * Z = Weight(x), unnormalised next-token weights = PrefixWeight(ctx.t) = parser(ctx.t); "
+                       "lm(x eos) * Z = Weight(x), LM.sample with a scripted draw (every draw from the exact conditional and its "
+                       "support, returned probability = Weight(ys)/Z; TLC-generated complete behaviours of Generation.tla and "
+                       "random walks, with and without max_tokens), unnormalised next-token weights = PrefixWeight(ctx.t) = parser(ctx.t); "
                        "Sat(3) grammars with arbitrary recursion for the unnormalised identity"))
 
 
